@@ -83,7 +83,7 @@ def main():
         engines.setdefault(engine, []).append(pid)
     man = dict(
         version=1,
-        setup_cmd="/venv/bin/python -m compileall -q /verif/mc && /venv/bin/python -c 'import wpilib, hal, ntcore'",
+        setup_cmd="/venv/bin/python -m compileall -q /verif/mc && /venv/bin/python -c 'import wpilib, hal, ntcore' && /venv/bin/python /verif/mc/selftest_core.py",
         hooks=dict(
             guard="ROBOTPY_WPILIB_UTILITIES_VERIF",
             enable="no source hooks are needed: the checks observe the library through its public API, generated subclasses and harness-side wrappers; the guard name is reserved",
